@@ -244,6 +244,12 @@ bool apply_terminal_op(std::string const &op, reader &r, terminal &t)
     }
     else if (op == "nb") t << use_normal_screen_buffer();
     else if (op == "ab") t << use_alternate_screen_buffer();
+    else if (op == "wr") {
+        long n = r.num();
+        byte_storage data;
+        for (long k = 0; k < n; ++k) data.push_back(static_cast<byte>(r.num()));
+        t.write(bytes{data.data(), data.size()});
+    }
     else if (op == "sz") { long w = r.num(), h = r.num(); t.set_size({(coordinate_type)w, (coordinate_type)h}); }
     else return false;
     return true;
